@@ -176,25 +176,37 @@ pub fn build_world(seed: u64, idx: u64, out: &mut RunOut) -> World {
   let dcfg = DocCfg { cbor_only: false, max_depth: rk.range(1, 3), max_children: rk.range(1, 4), floats: rk.coin(), edge_numbers: rk.coin(), long_strings: false };
   let enc = EncCfg::swarm(&mut rk);
   // a document and a schema inferred from it, with feature-gated alternatives so that --features matters
-  let doc = gen_doc(&mut rw, &dcfg, 0);
+  let mut doc = gen_doc(&mut rw, &dcfg, 0);
   let mut scfg = SchemaCfg::swarm(&mut rk);
   scfg.hazards = false;
   scfg.features = rk.chance(2, 3);
-  let (schema_text, csv_schema) = if rk.chance(1, 5) {
-    // hand-written feature schema: the verdict flips with the feature list
-    (
-      (*rw.pick(&[
-        "root = int .feature \"featx\"\n",
-        "root = [* (int .feature \"featx\") / tstr]\n",
+  let (schema_text, csv_schema) = if rk.chance(1, 4) {
+    // hand-written feature schemas with documents that meet the gated alternatives: the verdict flips
+    // with the feature list (one, several per line, controller given by a rule name, on the next line,
+    // as a byte string; rows of a CSV)
+    let i = |n: i128| Doc::Int(n);
+    let tx = |s: &str| Doc::Text(s.to_string());
+    let m = |v: Vec<(&str, Doc)>| Doc::Map(v.into_iter().map(|(k, d)| (Doc::Text(k.to_string()), d)).collect());
+    let table: Vec<(&str, Vec<Doc>)> = vec![
+      ("root = int .feature \"featx\"\n", vec![i(1), tx("s")]),
+      ("root = [* (int .feature \"featx\") / tstr]\n", vec![Doc::Array(vec![i(1), tx("a")]), Doc::Array(vec![Doc::Float(1.5)]), Doc::Array(vec![Doc::Bool(true)])]),
+      (
         "root = { a: (tstr .feature \"featx\") / int, ? b: (uint .feature \"other\") / bool }\n",
-        "root = (tstr / int) .feature \"featx\"\n",
-        "root = [* any]\n",
-        "root = [* int / tstr / bstr]\n",
-        "root = any\n",
-      ]))
-      .to_string(),
-      None,
-    )
+        vec![m(vec![("a", tx("x")), ("b", i(1))]), m(vec![("a", Doc::Float(1.5))]), m(vec![("a", i(1)), ("b", tx("s"))]), m(vec![("a", i(1)), ("b", i(-1))])],
+      ),
+      ("root = { ? a: int .feature \"other\", ? b: tstr .feature \"featx\" }\n", vec![m(vec![("a", i(1)), ("b", tx("s"))]), m(vec![("b", i(5))]), m(vec![("a", tx("x"))])]),
+      ("root = { v: tstr .feature fname }\nfname = \"featx\"\n", vec![m(vec![("v", tx("s"))]), m(vec![("v", i(1))])]),
+      ("root = { v: uint .feature\n  \"featx\", w: tstr .feature \"other\" }\n", vec![m(vec![("v", i(1)), ("w", tx("s"))]), m(vec![("v", tx("x")), ("w", tx("s"))]), m(vec![("v", i(1)), ("w", i(2))])]),
+      ("root = { note: \"a;b\", v: int .feature \"featx\" }\n", vec![m(vec![("note", tx("a;b")), ("v", i(1))]), m(vec![("note", tx("a;b")), ("v", tx("s"))])]),
+      ("root = [* row]\nrow = [int .feature \"featx\", tstr]\n", vec![Doc::Array(vec![Doc::Array(vec![i(1), tx("a")]), Doc::Array(vec![i(2), tx("b")])]), Doc::Array(vec![Doc::Array(vec![tx("x"), tx("a")])])]),
+      ("root = (tstr / int) .feature \"featx\"\n", vec![i(1), tx("s"), Doc::Bool(true)]),
+      ("root = [* any]\n", vec![Doc::Array(vec![i(1)]), i(3)]),
+      ("root = [* int / tstr / bstr]\n", vec![Doc::Array(vec![i(1), tx("a")]), Doc::Array(vec![Doc::Null])]),
+      ("root = any\n", vec![i(1)]),
+    ];
+    let (sch, docs) = rw.pick(&table).clone();
+    doc = rw.pick(&docs).clone();
+    (sch.to_string(), None)
   } else {
     let mut g = SchemaGen::new(&mut rw, scfg.clone());
     let root = g.ty(&doc, 0);
